@@ -4,6 +4,7 @@ import (
 	"crypto/sha256"
 	"encoding/hex"
 	"fmt"
+	"reflect"
 	"strings"
 
 	"github.com/graphql-go/graphql/language/ast"
@@ -287,6 +288,11 @@ func (c *normCtx) tryExtract(value ast.Value, expected Input) (ast.Value, bool) 
 		// (typically a type mismatch the validator should have caught
 		// earlier). Don't extract; let the executor surface the
 		// downstream error against the original literal.
+		return value, false
+	}
+	// Only extract what comes back unchanged when supplied as a variable
+	// (an enum's internal value, for one, does not).
+	if ok, _ := isValidInputValue(coerced, expected); !ok || !reflect.DeepEqual(coerceValue(expected, coerced), coerced) {
 		return value, false
 	}
 	name := c.nextName()
